@@ -38,7 +38,7 @@ MUTANTS = [
     ("WriteBack", "Mutant_WriteBack_InPlace.cfg", "C16_Atomic"), ("CheckReport", "Mutant_CheckReport_BreakInSubphase.cfg", "C13_GatedIsPrefix"),
     ("Config", "Mutant_Config_MostSpecificGroup.cfg", "C12_Precedence"), ("Config", "Known_Config_WholeEntry.cfg", "C12_Precedence"),
     ("FixSchedule", "Mutant_FixSchedule_LinesIgnored.cfg", "Inv_C20_OnlyListed"), ("FixSchedule", "Mutant_FixSchedule_OffByOne.cfg", "Inv_C13_FixPhase"),
-    ("Batch", "Mutant_Batch_Leak.cfg", "C15_LeakConstant"), ("Relayout", "Mutant_Relayout_Layout.cfg", "C05_RolesInvariant"),
+    ("ParseEmit", "Mutant_ParseEmit_AdjacentWords.cfg", "C08_WriteIsReadIffCanonical"), ("Batch", "Mutant_Batch_Leak.cfg", "C15_LeakConstant"), ("Relayout", "Mutant_Relayout_Layout.cfg", "C05_RolesInvariant"),
 ]
 
 
